@@ -81,6 +81,20 @@ func c02Apply(v jv, m *c02Mutation, depth int) (jv, bool) {
 				return v, false
 			}
 			return v.without(key), true
+		case "repeat-before":
+			// a second member of the same name, with another value, put in FRONT of the signed one
+			// (nested objects only: the text changes, and with it what a first-match reader sees)
+			if _, exists := v.get(key); !exists || err != nil || depth == 0 {
+				return v, false
+			}
+			out := jv{K: 'o'}
+			for _, m2 := range v.O {
+				if m2.Key == key {
+					out.O = append(out.O, jkv{key, val})
+				}
+				out.O = append(out.O, m2)
+			}
+			return out, true
 		}
 		return v, false
 	}
@@ -402,7 +416,7 @@ func c02Gen(t *rapid.T) c02Case {
 			if ok && val.K == 'o' {
 				k2, _, ok2 := pick(val, "nk2")
 				if ok2 {
-					m.Op = rapid.SampledFrom([]string{"set", "delete"}).Draw(t, "nop")
+					m.Op = rapid.SampledFrom([]string{"set", "delete", "repeat-before"}).Draw(t, "nop")
 					m.Path = []string{k, k2}
 				} else {
 					m.Op = "insert"
